@@ -137,11 +137,37 @@ def _reach_without(f, starts, target, edges):
     return False
 
 
+def r5_promotion_counts(ctx):
+    r = ctx.rule('C05.R5', 'PASS', 'every stream promoted from pending_open takes a concurrency slot (counted before its HEADERS can be sent)')
+    F = ctx.facts
+    f = r.fn(P + 'prioritize::Prioritize::pop_pending_open')
+    if not f:
+        return
+    pops = [bi for bi, t in f.calls(lambda t: t['fn'] == P + 'store::Queue::pop' and t['ga'] and t['ga'][0].endswith('NextOpen'))]
+    incs = [bi for bi, t in f.calls_to(COUNTS + '::inc_num_send_streams')]
+    r.floor(len(pops), 1, 'pending_open.pop site')
+    some = core.guard_edges(F, f, [P + 'store::Queue::pop'], lambda l: l == frozenset(['Some']))
+    ok = bool(incs) and bool(some)
+    wit = None
+    for (a, b) in some:
+        reach = f.reachable([b], cut_blocks=incs)
+        leak = [x for x in f.returns() if x in reach]
+        if leak:
+            ok = False
+            wit = core.compress_path(f, f.path_between(b, leak[0], cut_blocks=incs) or [])
+    r.check(ok, 'promoted-is-counted', f.file, 'every path from pending_open.pop() == Some to a return passes inc_num_send_streams' if ok else
+            'a stream can leave pending_open without inc_num_send_streams: its queued HEADERS are sent although it holds no slot, so more streams than SETTINGS_MAX_CONCURRENT_STREAMS reach the wire', witness=wit)
+    # and the promotion itself is behind the limit test (C05.R1) in the same function
+    e = core.guard_edges(F, f, [COUNTS + '::can_inc_num_send_streams'], lambda l: l is True)
+    r.check(bool(e) and all(f.dominated_by_edges(p, e) for p in pops), 'pop-behind-limit', f.file, 'pending_open is popped only while can_inc_num_send_streams()')
+
+
 def run(ctx):
     guarded_increments(ctx, 'C05.R1', 'concurrency counters move only behind their limit check (same function, true edge)', GUARDED, 3)
     r2_single_decrement(ctx)
     r3_transition_discipline(ctx)
     r4_refusal(ctx)
+    r5_promotion_counts(ctx)
 
 
 ENTRY_OWNERS = [P + 'streams::Streams::', P + 'streams::StreamRef::', P + 'streams::OpaqueStreamRef::', P + 'streams::DynStreams::',
